@@ -39,7 +39,7 @@ RULE = ("ex sid n k <alphabet> <prefix>: digest over all argument vectors of len
         "arguments, missing-vs-other). Exhaustive for every length <= 4 (quick) / <= 6 (thorough) for every shape; longer vectors "
         "sampled. An op is non-trivial unless it is a constructor-only line; distinct = distinct op lines (digest lines weigh k^(n-|prefix|)).")
 ASSUMPTIONS = [
-    "argument tokens contain no white space (operator>> of std::string reads the whole token)",
+    "operator>> of std::string / int / unsigned: skips leading classic-locale white space, reads one word (validated by the exhaustive-space batches)",
     "num_get for int/unsigned in the classic locale: [+-]?[0-9]+, whole token, range-checked; a negative unsigned wraps modulo 2^32 (libstdc++)",
     "std::find / vector::erase / std::set membership behave as their standard specifications (modelled as list split and list membership)",
     "records are compared by label: the order in which fcppt lists the elements of a product record is not observed",
@@ -412,6 +412,15 @@ def batches(rng, tier):
             al = option_names(s)[:3] + (nums if n < 3 else nums[:8])
             ops += ex_ops(s["id"], n, al)
         yield Batch(f"exhaustive-numeric-len{n}", ops, exhaustive=True, note=f"all vectors of length {n} over the option names and numbers at and beyond the limits of int / unsigned, signs, leading zeros, non-decimal spellings")
+    # 3b3. white space inside tokens (operator>> skips leading blanks and stops at the next one)
+    spaces = ["\\sx", "x\\s", "a\\sb", "\\s", "\\s5", "5\\s", "\\t5", "5\\t\\s", "\\s-x", "\\n", "red\\s", "\\sred", "\\s\\s7", "5"]
+    for n in range(1, (3 if thorough else 2) + 1):
+        ops = []
+        for s in SHAPES:
+            if s["kind"] != "ok" or not G.value_types(s):
+                continue
+            ops += ex_ops(s["id"], n, G.own_tokens(s)[:4] + spaces)
+        yield Batch(f"exhaustive-space-len{n}", ops, exhaustive=True, note=f"all vectors of length {n} over own names and tokens with blanks, tabs, line breaks in front of, inside and behind a value")
     # 3c. near misses of every name
     for n in range(1, (4 if thorough else 3) + 1):
         ops = []
